@@ -241,8 +241,25 @@ def check(pid, tier, seed):
                              'replay_cmd': f'./check replay {{this file}}'})
         violations.append((path, False, f))
     # 2. failed obligations without a native witness
+    replayed = {}
+    model_hit_funcs = set()
     for ob, r in failed:
-        if any(_fn_match(ob.func, fn) for fn in seen_fn_fail):
+        # 2a. the solver's counter-model, replayed on the real function (pure module-level functions over strings/ints/lists)
+        hit = _replay_model(pid, ob, r, reg, replayed) if ob.func not in model_hit_funcs else None
+        if hit is not None:
+            model_hit_funcs.add(ob.func)
+        elif any(_fn_match(ob.func, fn) for fn in seen_fn_fail) or ob.func in model_hit_funcs:
+            continue
+        if hit is not None:
+            k = is_known(hit.get('function', ''), hit)
+            if k is not None:
+                known_hit.append((k, hit))
+                continue
+            path = write_replay('model_' + ob.name, {'property': pid, 'kind': 'model-replay', **hit, 'obligation': ob.name,
+                                                     'clause': ob.detail, 'solver': r.get('backend'), 'model': r.get('model'),
+                                                     'replay_cmd': './check replay {this file}'})
+            violations.insert(0, (path, False, hit))        # the verifier's own counterexample, confirmed on the real code, comes first
+            seen_fn_fail.add(hit.get('function', ''))
             continue
         path = write_replay('obl_' + ob.name, {'property': pid, 'kind': 'failed-obligation', 'obligation': ob.name,
                                                'clause': ob.detail, 'line': ob.line,
@@ -361,6 +378,49 @@ def _fn_match(a, b):
     return a == b or a.endswith('.' + b) or b.endswith('.' + a)
 
 
+_SIMPLE = {'Str', 'Int', 'Bool', 'Seq[Str]', 'Seq[Int]', 'Bytes', 'Seq[Seq[Str]]'}
+
+
+def _replay_model(pid, ob, r, reg, cache):
+    """-> failure dict (function, case, observed, required) when the real function violates its contract on the model's input"""
+    relpath = qual = None
+    for (rp, q) in reg.contracts:
+        if rp[:-3].replace('/', '.').removesuffix('.__init__') + '.' + q == ob.func:
+            relpath, qual = rp, q
+            break
+    if relpath is None:
+        return None
+    fkey = f'{relpath}:{qual}'
+    c = reg.contracts.get((relpath, qual))
+    if c is None or '.' in qual or '#' in qual or c.region or not c.params or not isinstance(r.get('model'), dict):
+        return None
+    if any(str(t) not in _SIMPLE for t in c.params.values()):
+        return None
+    default = {'Str': '', 'Int': 0, 'Bool': False}
+    kwargs = {}
+    for nm, t in c.params.items():
+        v = r['model'].get(nm, default.get(str(t), []))
+        if isinstance(v, (dict,)) or (isinstance(v, str) and str(t) not in ('Str',)):
+            return None
+        kwargs[nm] = v
+    key = (fkey, json.dumps(kwargs, sort_keys=True, default=str))
+    if key in cache:
+        return cache[key]
+    env = dict(os.environ)
+    env['PYTHONPATH'] = os.environ.get('VERIF_REPO', '/repo') + os.pathsep + VERIF
+    try:
+        p = subprocess.run([NATIVE_PY, '-m', 'replay.model', pid, relpath, qual, json.dumps(kwargs)], cwd=VERIF, env=env,
+                           capture_output=True, text=True, timeout=60)
+        out = json.loads(p.stdout.strip().splitlines()[-1])
+    except Exception:
+        cache[key] = None
+        return None
+    f = out.get('failure')
+    cache[key] = None if not f else {'function': fkey, 'case': kwargs, 'observed': f.get('observed'), 'required': f.get('required'),
+                                     'class': 'model-replay'}
+    return cache[key]
+
+
 def replay(path):
     p = path if os.path.isabs(path) else os.path.join(OUT, path)
     data = json.load(open(p))
@@ -372,6 +432,12 @@ def replay(path):
     env = dict(os.environ)
     repo = os.environ.get('VERIF_REPO', '/repo')
     env['PYTHONPATH'] = repo + os.pathsep + VERIF
+    if data.get('kind') == 'model-replay':
+        relpath, qual = data['function'].split(':', 1)
+        pr = subprocess.run([NATIVE_PY, '-m', 'replay.model', pid, relpath, qual, json.dumps(data['case'])], cwd=VERIF, env=env,
+                            capture_output=True, text=True)
+        print(f"replay of the solver's counter-model on {data['function']}{data['case']!r}:", pr.stdout.strip())
+        return pr.returncode
     pr = subprocess.run([NATIVE_PY, '-m', 'replay.run', pid, '--replay', p], cwd=VERIF, env=env)
     return pr.returncode
 
